@@ -23,16 +23,24 @@ META = {
             "wires, control values) and simulated INSIDE Coq on all those inputs against the documented function evaluated "
             "in Coq, and for the transcribed templates the exported gate list must be syntactically equal to the model's "
             "circuit; (c) qp.matrix(op) columns on the domain equal the decomposition's outputs.",
-    "note": "Not proved for all sizes: IntegerComparator (model transcribed and tied, all-size theorem not attempted), the "
-            "QFT-based rules (PhaseAdder, Adder/QFT rule, OutAdder, Multiplier, ModExp, OutPoly, OutMultiplier/QFT rule) "
-            "and the composite SemiAdder-based rules (OutMultiplier adder/caddsub/cache, OutSquare, SignedOutSquare, "
-            "SignedOutMultiplier, Adder arithmetic rule, controlled variants): these are covered by the exhaustive small-size "
-            "tie only (registers <= 3-4 qubits).  The SemiAdder/Incrementer models are written as a nested recursion "
-            "(L_i ++ rest ++ R_i) rather than as the two Python loops; their gate lists are compared syntactically with the "
-            "real decomposition on every generated size.  Phases are not modelled: the classical model only tracks basis "
-            "states; absence of relative phases on the domain is checked numerically (matrix columns / state amplitudes are "
-            "compared through probabilities and, for qp.matrix, entrywise).  default.qubit is driven through its "
-            "preprocessing transform program once per circuit and its apply_operation kernels on the batch of inputs.",
+    "note": "Proved for ALL sizes/layouts: SemiAdder (with >= |y|-1 given work wires), elbow-ladder Incrementer, QubitSum, QubitCarry; "
+            "TemporaryAND's classical meaning is the model's primitive (GAnd, None outside the domain), so temporary_and_spec is "
+            "close to definitional - its real H/T and Toffoli decompositions and its matrix are tied numerically on the domain. "
+            "IntegerComparator: model transcribed and tied; only the finite family n<=4 (canonical layout) is decided by evaluation "
+            "(comparator_spec_partial), no all-n theorem.  Tie only (exhaustive small sizes, registers <= 3-4 qubits): the QFT-based "
+            "rules (PhaseAdder, Adder/QFT, OutAdder, Multiplier, ModExp, OutPoly, OutMultiplier/QFT), the composite SemiAdder-based "
+            "rules (OutMultiplier adder/caddsub/cache, OutSquare, SignedOutSquare, SignedOutMultiplier, Adder arithmetic rule), "
+            "controlled variants C(SemiAdder)/C(Incrementer), dynamically allocated work wires, the mid-circuit-measurement rule of "
+            "Adjoint(TemporaryAND) (probabilities only).  The SemiAdder/Incrementer models are a nested recursion (L_i ++ rest ++ R_i) "
+            "instead of the two Python loops; their gate lists are compared syntactically with the real decomposition on every "
+            "generated size.  Phases are not modelled classically; absence of relative phases on the domain is only checked "
+            "numerically (qp.matrix columns entrywise to 1e-9; state probabilities).  default.qubit is driven through its "
+            "preprocessing program once per circuit and its apply_operation kernels on the batch of all inputs.  1-bit signed "
+            "registers (SignedOutSquare/SignedOutMultiplier) are excluded (the templates raise IndexError there).  The model "
+            "REFUTES one clause: the Incrementer fallback rule (fewer than n-1 work wires) never flips the top wire "
+            "(incrementer_fallback_refuted); the tie also shows SignedOutMultiplier returning -2^(k-1) for 0 * negative and "
+            "ignoring the documented mod 2^k wrap of the sign bit, and IntegerComparator.compute_matrix raising for geq=False with "
+            "value > 2^n (the decomposition handles that case) - all reported as violations until decided.",
     "assumptions": ["basis inputs inside the documented domain (x < mod, work wires |0>, TemporaryAND target |0>, "
                     "PhaseAdder with mod != 2^n restricted to mod <= 2^(n-1))",
                     "register sizes <= 4 qubits and <= 14 wires in the exhaustive tie"],
@@ -298,11 +306,14 @@ CORPUS = [
     {"t": "SemiAdder", "regs": {"x": [0, 1, 2], "y": [3, 4], "work": [5]}, "order": list(range(6)), "matrix": True},
     {"t": "SemiAdder", "regs": {"x": [0, 1], "y": [2, 3, 4, 5], "work": [6, 7, 8]}, "order": list(range(9))},
     {"t": "SemiAdder", "regs": {"x": [0], "y": [1]}, "order": list(range(2)), "matrix": True},
+    {"t": "SemiAdder", "regs": {"x": [0, 1], "y": [2, 3], "work": [4]}, "order": list(range(5)), "matrix": True},
+    {"t": "SemiAdder", "regs": {"x": [5, 1, 3], "y": [0, 2, 4], "work": [6, 7]}, "order": list(range(8)), "matrix": True},
     {"t": "Incrementer", "regs": {"x": [0, 1, 2], "work": [3, 4]}, "order": list(range(5)), "matrix": True},
     {"t": "Incrementer", "regs": {"x": [4, 2, 0, 1], "work": [3, 5, 6]}, "order": list(range(7)), "matrix": True},
     {"t": "IntegerComparator", "k": 4, "geq": True, "regs": {"x": [0, 1, 2], "tgt": [3]}, "order": list(range(4)), "matrix": True},
     {"t": "IntegerComparator", "k": 3, "geq": False, "regs": {"x": [0, 1, 2], "tgt": [3]}, "order": list(range(4)), "matrix": True},
     {"t": "IntegerComparator", "k": 5, "geq": True, "regs": {"x": [2, 0, 3], "tgt": [1]}, "order": list(range(4)), "matrix": True},
+    {"t": "IntegerComparator", "k": 5, "geq": False, "regs": {"x": [0, 1], "tgt": [2]}, "order": list(range(3)), "matrix": True},
     {"t": "TemporaryAND", "cv": [1, 1], "regs": {"x": [0, 1], "tgt": [2]}, "order": list(range(3)), "matrix": True},
     {"t": "AdjTemporaryAND", "cv": [1, 0], "regs": {"x": [0, 1], "tgt": [2]}, "order": list(range(3)), "matrix": True},
     {"t": "QubitCarry", "regs": {"a": [0], "b": [1], "c": [2], "d": [3]}, "order": list(range(4)), "matrix": True},
@@ -404,7 +415,12 @@ def tag(c):
         return "work" if len(c["regs"].get("work", [])) + 1 >= len(c["regs"]["x"]) + len(c["regs"].get("ctrl", [])) else "nowork"
     if c.get("ctrl"):
         return "ctrl"
+    if t == "IntegerComparator" and c["k"] > (1 << len(c["regs"]["x"])):
+        return "overrange"       # value beyond 2^n: decomposition defined (always / never flip)
     return ""
+
+
+NATIVE_MATRIX = ("IntegerComparator", "TemporaryAND", "AdjTemporaryAND", "QubitCarry", "QubitSum")
 
 
 def fail_class(c, d, got, expect):
@@ -516,6 +532,11 @@ def run(ctx):
                     term_meta.append((c, rname, key0, ent.get("cls", "")))
             elif rname != "<device>":
                 hist["nonclassical_rules"] += 1
+        if o.get("mat_err") and t not in NATIVE_MATRIX:
+            hist["matrix_unavailable"] = hist.get("matrix_unavailable", 0) + 1    # e.g. dynamically allocated work wires
+        if o.get("mat_err") and t in NATIVE_MATRIX:
+            ctx.violation(f"matrix-err:{t}[{tag(c)}]:{key0}", {"case": {k: x for k, x in c.items() if k != "inputs"}, "error": o["mat_err"]},
+                          what=f"qp.matrix({t}) raises on a configuration whose decomposition is defined: {o['mat_err'][:200]}")
         if o.get("mat") is not None:
             hist["matrix_checked"] += 1
             for v, got, exp in zip(d, o["mat"], expect):
